@@ -33,12 +33,12 @@ def schedule(rng, n, w):
     pieces = []
     left = n
     while left > 0:
-        cands = [1, 1, 2, w - 1, w, w + 1, 2 * w, 2 * w + 1, rng.randint(1, max(1, left))]
+        cands = [1, 1, 1, 2, w - 1, w, w + 1, 2 * w, 2 * w + 1, rng.randint(1, max(1, left))]
         k = rng.choice([c for c in cands if 1 <= c <= left] or [left])
         if rng.random() < 0.08:
             pieces.append(("blks", 0, rng.choice(["ip", "b2b"])))
-        kind = "blk" if (k == 1 and rng.random() < 0.6) else "blks"
-        place = rng.choice(["ip", "b2b", "b2b"]) if kind == "blks" else rng.choice(["ip", "b2b", "io"])
+        kind = "blk" if (k == 1 and rng.random() < 0.75) else "blks"
+        place = rng.choice(["ip", "b2b", "b2b"]) if kind == "blks" else rng.choice(["ip", "ip", "b2b", "io"])
         pieces.append((kind, k, place))
         left -= k
     if n == 0 and rng.random() < 0.5:
